@@ -554,7 +554,23 @@ func jnumWeirdAsNumber() []string { return jnumWeird }
 
 func (g *gen) pickNumWeird() any { return json.Number(g.pick(jnumWeird)) }
 
+// exoticPool: values that earlier rounds showed to matter in one position or another (number texts
+// that are not canonical, the limits of int64 / int32 / float64, look-alike strings, datetimes with
+// nine fractional digits, one-element and empty containers). One scalar in twelve is drawn from it,
+// whatever the position, so that such a value meets every operator, method and subscript now and then.
+var exoticPool = []any{
+	json.Number("1.50"), json.Number("0.2e1"), json.Number("1E2"), json.Number("30.0e-1"), json.Number("-0"), json.Number("1e400"), json.Number("-1E+999"), json.Number(digits309),
+	json.Number("9007199254740993"), json.Number("-9223372036854775808.0"), json.Number("2147483647.5"), json.Number("12345678901234567890"), json.Number("0.10"), json.Number("1e-400"),
+	int64(math.MaxInt64), int64(math.MinInt64), int64(9007199254740993), int64(2147483648), int64(-2147483649), int64(0),
+	2147483647.5, -0.5, 1e308, -1e308, 5e-324, 9007199254740992.0, 0.1, 1e21, 123456789.125,
+	"\\U0001f600", "a\\Eb", "000123", " 12", "12:34:56.123456789+01:00", "2024-03-10T02:30:00", "2023-11-05T04:30:00Z", "23:59:59.9999995", "2024-01-01T12:34:56.1234567", "ab", "abc",
+	[]any{}, []any{float64(1)}, []any{"ab"}, []any{[]any{float64(7)}, []any{}}, map[string]any{}, []any{json.Number("1")},
+}
+
 func (g *gen) scalar(repr int) any {
+	if g.pct(8) {
+		return deepCopy(exoticPool[g.r.Intn(len(exoticPool))])
+	}
 	switch g.choose(6, 4, 1, 1, 1) {
 	case 0:
 		n := g.number(repr)
